@@ -63,8 +63,11 @@ def any_panic(f):
         for v in o.get('verify') or []:
             if v.get('result') == 'panic':
                 return True, v
-        if o.get('decode') == 'panic' or o.get('decode_panic'):
+        if o.get('decode') == 'panic' or o.get('decode_panic') or o.get('serde_decode') == 'panic' or o.get('serde_reader_decode') == 'panic':
             return True, o
+        for shp, res in (o.get('serde_shapes') or {}).items():
+            if res == 'panic':
+                return True, {'serde visitor panicked on input presented as': shp}
     return False, None
 
 
